@@ -17,8 +17,19 @@ Notation ofZ := (c17_of_Z prec emax Hprec Hmax).
 
 (* std::numeric_limits<T>::epsilon() = 2^(1-prec) *)
 Definition c17_machine_eps : fl := binary_normalize prec emax Hprec Hmax mode_NE 1 (1 - prec) false.
-(* a decimal literal num/den converted to the format *)
-Definition c17_literal (num den : Z) : fl := c17_fdiv prec emax Hprec Hmax (ofZ num) (ofZ den).
+(* the literals are `double` literals (8., 1e-6): correctly rounded to binary64 first, then converted to the epsilon type
+   (conversion = correct rounding of the binary64 value into the format; exact for long double) *)
+Definition c17_conv_from_double (d : binary_float c17_prec64 c17_emax64) : fl :=
+  match d with
+  | B754_zero s => B754_zero s
+  | B754_infinity s => B754_infinity s
+  | B754_nan => B754_nan
+  | B754_finite s m e _ => binary_normalize prec emax Hprec Hmax mode_NE (cond_Zopp s (Zpos m)) e s
+  end.
+Definition c17_literal (num den : Z) : fl :=
+  c17_conv_from_double
+    (c17_fdiv c17_prec64 c17_emax64 c17_Hprec64 c17_Hmax64
+       (c17_of_Z c17_prec64 c17_emax64 c17_Hprec64 c17_Hmax64 num) (c17_of_Z c17_prec64 c17_emax64 c17_Hprec64 c17_Hmax64 den)).
 
 (* DefaultEpsilon<T,style>::value():  epsilon()*8.  (relative styles),  std::max(epsilon(), 1e-6)  (absolute) *)
 Definition c17_default_eps (s : c17_cstyle) : fl :=
